@@ -315,6 +315,10 @@ def gen_host_vm(rng):
 # run scenarios
 # ----------------------------------------------------------------------------------------
 def is_2xx(a):
+    """the host accepted the batch: it answered with a 2xx status (whether or not the response body
+    then arrived completely)"""
+    if isinstance(a, dict):
+        a = a.get("status", 200)
     return isinstance(a, int) and 200 <= a <= 299
 
 
@@ -322,8 +326,10 @@ def gen_responses(rng, quick):
     r = rng.random()
     if r < 0.55:
         return []
-    fails = [500, 503, 404, 302, 429, "drop"]
-    oks = [200, 200, 201, 204]
+    fails = [500, 503, 404, 302, 429, "drop", {"status": 500, "body": "host busy"}, {"status": 503, "fault": "cut_body"},
+             {"status": 500, "fault": "cut_chunked"}]
+    oks = [200, 200, 201, 204, {"status": 200, "body": "stored"}, {"status": 200, "fault": "cut_body"},
+           {"status": 200, "fault": "head_only"}, {"status": 200, "fault": "cut_chunked"}, {"status": 202, "fault": "cut_body"}]
     out = []
     for _ in range(rng.randint(1, 14)):
         k = rng.choice([0, 0, 1, 1, 2, 4, 5, 5, 6])
@@ -338,7 +344,9 @@ def gen_scenario(rng, sid, env, quick, kind=None):
     vm = gen_host_vm(rng)
     kind = kind or rng.choice(["small", "small", "mixed", "mixed", "boundary", "boundary", "oversize", "nonascii", "many", "empty"])
     nfiles = rng.randint(1, 6)
-    total = {"small": rng.randint(0, 30), "mixed": rng.randint(5, 60), "boundary": rng.randint(2, 12),
+    if kind == "cancel":
+        nfiles = rng.randint(1, 3)
+    total = {"cancel": rng.randint(4, 24), "small": rng.randint(0, 30), "mixed": rng.randint(5, 60), "boundary": rng.randint(2, 12),
              "oversize": rng.randint(1, 12), "nonascii": rng.randint(20, 60),
              "many": rng.choice([120, 250, 400]), "empty": 0}[kind]
     tok = [0]
@@ -362,6 +370,9 @@ def gen_scenario(rng, sid, env, quick, kind=None):
                 ev = gen_event(rng, t, big_message(rng, rng.choice([60000, 64000, 66000, 70000, 100000])))
         elif kind == "nonascii":
             ev = gen_event(rng, t, [[rng.choice(["é", "日", "\U0001F600", "ü"]), rng.randint(400, 2500)]])
+        elif kind == "cancel":
+            # files that need several batches: the stop can fall between two batches of one file
+            ev = gen_event(rng, t, big_message(rng, rng.choice([12000, 20000, 30000, 40000, 70000])))
         elif kind == "oversize":
             ev = gen_event(rng, t)
             if rng.random() < 0.5:
@@ -410,7 +421,14 @@ def gen_scenario(rng, sid, env, quick, kind=None):
         if f["name"] not in names:
             names.add(f["name"])
             uniq.append(f)
-    return {"id": sid, "kind": kind, "vm_intended": vm, "files": uniq, "responses": gen_responses(rng, quick)}
+    sc = {"id": sid, "kind": kind, "vm_intended": vm, "files": uniq, "responses": gen_responses(rng, quick)}
+    if kind == "cancel":
+        # the service is stopped (the token given to EventReader::new fires) when telemetry POST #n
+        # arrives at the host / has been decided by the host / delay_s virtual seconds after its answer
+        sc["responses"] = [rng.choice([200, 200, 200, 201, 500, 503, "drop", {"status": 200, "fault": "cut_body"}]) for _ in range(rng.randint(0, 14))]
+        sc["cancel"] = {"at": rng.choice(["arrival", "answer", "answer", "sleep", "sleep"]), "n": rng.randint(0, 9),
+                        "delay_s": rng.choice([1, 5, 14, 16, 100])}
+    return sc
 
 
 def vm_model_guess(vm):
@@ -532,6 +550,14 @@ def check_property(sc, res, env, bodies, single_sizes):
             return "event %s was delivered %d times (POSTs %s answered 2xx)" % (t, len(okd), okd)
         if okd and idxs[-1] > okd[0]:
             return "event %s was uploaded again (POST #%d) after the host had accepted it (POST #%d)" % (t, idxs[-1], okd[0])
+    if res.get("ended_by_cancel_point"):
+        # the service was stopped in the middle of the pass: what was not sent stays on disk for
+        # the next start; only "at most once" (above) and the non-event files apply
+        keep = sorted(f["name"] for f in sc["files"] if not f["name"].endswith(".json"))
+        missing = [n for n in keep if n not in res["dir_at_end"]]
+        if missing:
+            return "files that are not event files were removed: %s" % missing
+        return None
     # --- too large for any batch <=> dropped; everything else is uploaded
     for t, e in by_token.items():
         alone = single_sizes.get(t)
@@ -651,7 +677,12 @@ def run(ctx):
             body = bytes.fromhex(io["xml"]["hex"])
             try:
                 evs = parse_post(body)
-                for pe, src in zip(evs, c["events"]):
+                by_tok = {flat(e["opid"]): e for e in c["events"]}
+                for pe in evs:        # matched by the unique token, not by position in the document
+                    src = by_tok.get(pe["Context3"][0])
+                    if src is None:
+                        failures.append({"case": label, "why": "the document holds an event %r that was not added" % pe["Context3"][0][:80], "impl": body[:300].decode("utf-8", "replace")})
+                        break
                     want = dict((n, (v, "mt:wstr" if ty == "s" else "mt:uint64")) for n, v, ty in py_fields(src, c["vm"], env))
                     bad = [n for n in PARAM_NAMES if pe[n] != want[n]]
                     if bad:
@@ -663,8 +694,8 @@ def run(ctx):
                 failures.append({"case": label, "why": "to_xml() is not a well-formed document of the expected shape: %s" % ex, "impl": body[:300].decode("utf-8", "replace")})
 
     # ================= layer 2: the real EventReader against the mock host =================
-    n_run = 80 if quick else 600
-    kinds = ["boundary"] * 14 + ["oversize"] * 8 + ["nonascii"] * 6 + ["many"] * (5 if quick else 30) + ["empty"] * 2
+    n_run = 100 if quick else 700
+    kinds = ["cancel"] * (20 if quick else 100) + ["boundary"] * 14 + ["oversize"] * 8 + ["nonascii"] * 6 + ["many"] * (5 if quick else 30) + ["empty"] * 2
     scenarios = []
     for sid in range(n_run):
         scenarios.append(gen_scenario(rng, sid, env, quick, kinds[sid] if sid < len(kinds) else rng.choice(["small", "mixed", "mixed", "boundary", "oversize"])))
@@ -672,7 +703,10 @@ def run(ctx):
     cmds = []
     for sc in scenarios:
         d = os.path.join(run_root, "s%d" % sc["id"], "Events")
-        cmds.append({"op": "run", "dir": d, "files": sc["files"], "docs": host_docs(sc["vm_intended"]), "responses": sc["responses"]})
+        cmd = {"op": "run", "dir": d, "files": sc["files"], "docs": host_docs(sc["vm_intended"]), "responses": sc["responses"]}
+        if "cancel" in sc:
+            cmd["cancel"] = sc["cancel"]
+        cmds.append(cmd)
     t0 = time.time()
     run_out = parallel_driver(binary, cmds, 6, hang_secs)
     ctx.log("ran %d reader scenarios in %.1fs" % (len(cmds), time.time() - t0))
@@ -693,7 +727,8 @@ def run(ctx):
     exprs = []
     idx = []
     stats = {"posts": 0, "failed_posts": 0, "batches": 0, "dropped": 0, "events": 0, "files": 0, "unreadable": 0,
-             "gaveup": 0, "exact_limit_minus_1": 0, "hangs": 0, "vm_as_intended": 0}
+             "gaveup": 0, "exact_limit_minus_1": 0, "hangs": 0, "vm_as_intended": 0, "stopped": 0,
+             "accepted_with_cut_body": 0}
     nontrivial = set()
     for sc, res in zip(scenarios, run_out):
         if res is None:
@@ -741,11 +776,14 @@ def run(ctx):
         mfiles, mdir, mcount = mo[1]
         # model: flatten to the POST sequence and the batches
         m_posts, m_batches, m_dropped = [], [], []
+        file_ranges = []
         for name, rounds in mfiles:
             if rounds is None:
                 stats["unreadable"] += 1
+                file_ranges.append((b2s(name), len(m_posts), len(m_posts)))
                 continue
             stats["files"] += 1
+            file_ranges.append([b2s(name), len(m_posts), None])
             for batch, dropped, atts in rounds[1]:
                 toks = [b2s(t) for t in batch]
                 m_dropped += [b2s(t) for t in dropped]
@@ -755,20 +793,45 @@ def run(ctx):
                     m_batches.append(toks)
                     if atts and not any(a[2] for a in atts):
                         stats["gaveup"] += 1
+            file_ranges[-1] = (file_ranges[-1][0], file_ranges[-1][1], len(m_posts))
         i_posts = []
         for p, body in zip(res["posts"], bodies):
             toks = tuple(t.decode() for t in re.findall(rb'Context3" Value="(s\d+-e\d+)"', body))
             i_posts.append((p["len"], tuple(p["ck"]), is_2xx(p["answer"]), toks))
-            if p["content_type"] != "text/xml; charset=utf-8":
-                failures.append({"case": label, "why": "POST content type is %r" % p["content_type"], "impl": p})
         i_dir = sorted(res["dir_after"])
         m_dir = sorted(b2s(n) for n in mdir)
-        if i_posts != m_posts or i_dir != m_dir:
+        if res.get("ended_by_cancel_point"):
+            # the service was stopped at the scenario's cancellation point: the host must have seen a
+            # PREFIX of the POST sequence of the uninterrupted pass and nothing else; a file may be gone
+            # only when all its POSTs are in the prefix, and must be gone when a later file was started
+            stats["stopped"] += 1
+            i_dir = sorted(res["dir_at_end"])
+            npost = len(i_posts)
+            bad = None
+            if i_posts != m_posts[:npost]:
+                bad = "the POSTs seen by the host are not a prefix of the uninterrupted pass"
+            else:
+                for fi, (name, start, end) in enumerate(file_ranges):
+                    present = name in i_dir
+                    later_started = any(s2 < npost and e2 > s2 for (_, s2, e2) in file_ranges[fi + 1:])
+                    if present and later_started:
+                        bad = "file %s is still there although a later file was being uploaded" % name
+                    if not present and end > npost:
+                        bad = "file %s is gone although only %d of its POSTs up to #%d were made" % (name, npost, end)
+                if [n for n in m_dir if n not in i_dir]:
+                    bad = "an entry that is not an event file is gone"
+            if bad:
+                k = next((j for j, (a, b) in enumerate(zip(i_posts, m_posts)) if a != b), min(len(i_posts), len(m_posts)))
+                disagreements.append({"case": dict(label, cancel=sc.get("cancel")), "what": bad, "first_differing_post": k,
+                                      "model": {"posts": len(m_posts), "at": str(m_posts[k:k + 2])[:500], "files": file_ranges},
+                                      "impl": {"posts": len(i_posts), "at": str(i_posts[k:k + 2])[:500], "dir": i_dir}})
+        elif i_posts != m_posts or i_dir != m_dir:
             k = next((j for j, (a, b) in enumerate(zip(i_posts, m_posts)) if a != b), min(len(i_posts), len(m_posts)))
             disagreements.append({"case": label, "first_differing_post": k,
                                   "model": {"posts": len(m_posts), "at": str(m_posts[k:k + 2])[:500], "dir": m_dir},
                                   "impl": {"posts": len(i_posts), "at": str(i_posts[k:k + 2])[:500], "dir": i_dir}})
         stats["posts"] += len(i_posts)
+        stats["accepted_with_cut_body"] += sum(1 for p in res["posts"] if isinstance(p["answer"], dict) and p["answer"].get("fault") and is_2xx(p["answer"]))
         stats["failed_posts"] += sum(1 for p in i_posts if not p[2])
         stats["batches"] += len(m_batches)
         stats["dropped"] += len(m_dropped)
